@@ -59,7 +59,8 @@ def judge(c, res):
     sched = make_schedule(c['sched_seed'], c['density'], need + 2, c['start_error'])
     nbusy = sum(len(v) for (kind, k), v in sched['busy'].items() if k < need)
     with env.scratch_dir('bbv-c18-') as d:
-        r = _dfu.run(c['pages'], fw, sched, d, symlink=c.get('symlink', False))
+        # (round 9) the device id is a pair of hexadecimal numbers: one run in three writes its letters in upper case
+        r = _dfu.run(c['pages'], fw, sched, d, symlink=c.get('symlink', False), device_id='28E9:0189' if c['sched_seed'] % 3 == 0 else '28e9:0189')
     dev = r['device']
     payload = {'kind': 'dfu', 'params': c}
     why = None
